@@ -18,12 +18,27 @@ def canon(prog):
     return repr(prog)
 
 
+# reset flavours of the "idle reset" stratum: the process carries a reset that is never activated, the translation must stay
+# clock-accurate (the reset wrapper `if rst then ... else <body>` must not swallow or reorder anything of the body)
+IDLE_RESETS = {"rst-sync": dict(is_async=False, active_low=False, step_cond=False),
+               "rst-async-low-nopush": dict(is_async=True, active_low=True, step_cond=False, nopush=True),
+               "rst-sync-nopush": dict(is_async=False, active_low=False, step_cond=False, nopush=True)}
+
+
+def split(prog):
+    """family items are abstract programs or ('@rst', flavour name, program)"""
+    if prog and prog[0] == "@rst":
+        return prog[2], IDLE_RESETS[prog[1]]
+    return prog, None
+
+
 def work(task):
     length, progs = task
     out = []
-    for prog in progs:
-        r = check_program(prog)
-        r["prog"] = prog
+    for item in progs:
+        prog, reset = split(item)
+        r = check_program(prog, reset)
+        r["prog"] = item
         r.pop("vhdl", None)
         if r["status"] in ("ok", "violation"):
             # validate the oracle itself against CPython executing a generator rendering of the same program
@@ -49,6 +64,14 @@ def program_family(run: Run):
     # loop-first programs: a while loop as the very first action whose body combines conditional break / continue, awaits and
     # sites (2..4 body items; bodies of 6 and more statement nodes that the size-bounded enumeration does not reach)
     yield from coro.loop_first_programs(4 if not run.thorough else 5)
+    # idle reset: every program of size <=2 (thorough <=3) and the small loop-first programs in a process with a reset that
+    # stays inactive
+    for name in IDLE_RESETS:
+        for size in ((1, 2, 3) if run.thorough else (1, 2)):
+            for p in coro.programs(size, calls=(0,)):
+                yield ("@rst", name, p)
+        for p in coro.loop_first_programs(3):
+            yield ("@rst", name, p)
     # the same programs with every `if` written as a `match` statement (all sizes <=3, thorough <=4)
     for size in ((1, 2, 3, 4) if run.thorough else (1, 2, 3)):
         for p in coro.programs(size, calls=(0, 1)):
@@ -115,13 +138,13 @@ def main(run: Run):
                 # confirm by plain replay on a fresh simulator before reporting
                 trace = r.get("trace")
                 if trace is not None:
-                    msg = replay_program(r["prog"], trace)
+                    msg = replay_program(*split(r["prog"])[:1], trace, split(r["prog"])[1])
                     if msg is None:
                         run.tool_error(f"replay did not reproduce for {canon(r['prog'])}")
                         continue
                 run.violation(finding_key(r["prog"]), f"{canon(r['prog'])}: {r['what'][:300]} trace={trace}",
                               {"generator": "coro", "abstract_program": r["prog"], "cohdl_source": r.get("src"),
-                               "events": trace, "reset": None})
+                               "events": trace, "reset": split(r["prog"])[1]})
     acc = run.counters.get("programs_ok", 0) + run.counters.get("programs_violation", 0)
     if acc * 2 < len(progs):
         run.tool_error(f"vacuous: only {acc} of {len(progs)} programs accepted by the compiler")
@@ -138,7 +161,7 @@ def main(run: Run):
 
 
 def replay(run: Run, data):
-    prog = to_tuple(data["abstract_program"])
+    prog, _ = split(to_tuple(data["abstract_program"]))
     msg = replay_program(prog, [tuple(e) for e in data["events"]], data.get("reset"))
     if msg is not None:
         print("reproduced:", msg)
